@@ -31,20 +31,20 @@ WC = '<std::result::Result<T, E> as snafu::ResultExt<T, E>>::with_context'
 
 
 def parse_to(ty, err):
-    return '%s(std::str::parse::<%s>(%s), |$c0| errors::%sSnafu{url: url})?' % (WC, ty, V, err)
+    return 'std::result::Result::map_err(std::str::parse::<%s>(%s), |$c0| errors::Error::%s{source: $c0, url: url})?' % (ty, V, err)
 
 
 DECODE_SCRIPT = [
     'case(url::Url::path_segments(url) ~ Some(_)) > unless(is_empty(std::option::Option::unwrap(%s))) > $m0 = %svirtual_host($m0, %sdecode::percent_decode(std::option::Option::unwrap(%s)))' % (SEG, OPT, U, SEG),
-    'case(url::Url::path_segments(url) ~ Some(_)) > case(%s ~ Some(_)) > return errors::ExtraUrlPathSegmentsSnafu::fail(errors::ExtraUrlPathSegmentsSnafu{url: url})' % SEG,
+    'case(url::Url::path_segments(url) ~ Some(_)) > case(%s ~ Some(_)) > return Err(errors::Error::ExtraUrlPathSegments{url: url})' % SEG,
     'if((!is_empty(url::Url::username(url)) || (url::Url::password(url) ~ Some(_)))) > $m0 = %sauth($m0, auth::Auth::Plain{password: %sdecode::percent_decode(std::option::Option::unwrap_or(url::Url::password(url), "guest")), '
     'username: %sdecode::percent_decode(if is_empty(url::Url::username(url)) {"guest"} else {url::Url::username(url)})})' % (OPT, U, U),
     'for(%s) > case(%s ~ "heartbeat") > $m0 = %sheartbeat($m0, %s)' % (QP, K, OPT, parse_to('u16', 'UrlParseHeartbeat')),
     'for(%s) > case(%s ~ "channel_max") > $m0 = %schannel_max($m0, %s)' % (QP, K, OPT, parse_to('u16', 'UrlParseChannelMax')),
     'for(%s) > case(%s ~ "connection_timeout") > $m0 = %sconnection_timeout($m0, Some(std::time::Duration::from_millis(%s)))' % (QP, K, OPT, parse_to('u64', 'UrlParseConnectionTimeout')),
     'for(%s) > case(%s ~ "auth_mechanism") > if(("external" == %s)) > $m0 = %sauth($m0, auth::Auth::External)' % (QP, K, V, OPT),
-    'for(%s) > case(%s ~ "auth_mechanism") > unless(("external" == %s)) > return errors::UrlInvalidAuthMechanismSnafu::fail(errors::UrlInvalidAuthMechanismSnafu{mechanism: %s, url: url})' % (QP, K, V, V),
-    'for(%s) > case(%s ~ not "heartbeat" | "channel_max" | "connection_timeout" | "auth_mechanism") > return errors::UrlUnsupportedParameterSnafu::fail(errors::UrlUnsupportedParameterSnafu{parameter: %s, url: url})' % (QP, K, K),
+    'for(%s) > case(%s ~ "auth_mechanism") > unless(("external" == %s)) > return Err(errors::Error::UrlInvalidAuthMechanism{mechanism: %s, url: url})' % (QP, K, V, V),
+    'for(%s) > case(%s ~ not "heartbeat" | "channel_max" | "connection_timeout" | "auth_mechanism") > return Err(errors::Error::UrlUnsupportedParameter{parameter: %s, url: url})' % (QP, K, K),
 ]
 
 
@@ -72,7 +72,7 @@ def run(ctx):
             elif sch == '"amqps"':
                 r.check(key + ':port', ports == ['url::Url::set_port(url, Some(std::option::Option::unwrap_or(url::Url::port(url), 5671)))'] and x.value_str() == 'Ok(%sScheme::Amqps)' % U, site, built=(ports, x.value_str()))
             else:
-                r.check(key + ':invalid-scheme', sch == 'not "amqp" | "amqps"' and x.value_str() == 'errors::InvalidUrlSchemeSnafu::fail(errors::InvalidUrlSchemeSnafu{url: url})' and not ports, site, built=(sch, x.value_str()))
+                r.check(key + ':invalid-scheme', sch == 'not "amqp" | "amqps"' and x.value_str() == 'Err(errors::Error::InvalidUrlScheme{url: url})' and not ports, site, built=(sch, x.value_str()))
         r.check('host-condition', len([x for x in rows if x.conds[0] == (NOHOST, True)]) == 3, site, built=rows[0].conds[0][0] if rows else None, expected=NOHOST)
         # decode: ordered script
         scr, evs, ret = A.fn_script(ctx, U + 'decode')
@@ -128,7 +128,7 @@ def run(ctx):
         for x in rows:
             got[tuple(x.cond_strs())] = x.value_str()
         want = {(SC + ' ~ %sScheme::Amqp' % U, 'allow_insecure'): U + 'open_amqp($m0, %s, tuning)' % DEC,
-                (SC + ' ~ %sScheme::Amqp' % U, '!allow_insecure'): 'errors::InsecureUrlSnafu::fail(errors::InsecureUrlSnafu{url: $m0})',
+                (SC + ' ~ %sScheme::Amqp' % U, '!allow_insecure'): 'Err(errors::Error::InsecureUrl{url: $m0})',
                 (SC + ' ~ %sScheme::Amqps' % U,): U + 'open_amqps($m0, %s, tuning)' % DEC}
         r.eq('gate', got, want, site, why='every amqp:// URL is rejected with InsecureUrl by the secure-only entry points')
         r.check('url-parsed-first', all(x.effects[:1] == ['url::Url::parse(url)'] for x in rows), site)
